@@ -487,10 +487,119 @@ def _custom_size(ck, cx, k, fn, want, nz):
                   message='ReadFifoQueueResponse.calculateRtuFrameSize computes %s, expected byte count low byte buffer[3] + 6' % pr)
     else:
         # MEI response: header is 6 PDU bytes, object count at frame offset 7, objects (id, len, value) from offset 8, CRC 2
-        txt = U(fn.node)
-        ok = 'size = 8' in txt and '%s[7]' % buf in txt and 'size + 2' in txt and "object_length + 2" in txt
-        ck.ob('R3', fn.qn, 'frame size walks number_of_objects (id, len, value) records from offset 8 and adds the CRC', ok, detail='mei-size-shape', loc=cx.floc(fn))
+        ok, why = _mei_size_summary(cx, k, fn, nz)
+        ck.ob('R3', fn.qn, 'frame size walks number_of_objects (id, len, value) records from offset 8 and adds the CRC', ok, detail='mei-size-shape', loc=cx.floc(fn),
+              message='ReadDeviceInformationResponse.calculateRtuFrameSize: %s' % why)
 
+
+
+def _mei_size_summary(cx, k, fn, nz):
+    """dataflow summary of the MEI frame-size walk, independent of spelling: on loop entry the cursor is 8 and the counter is the
+    byte at frame offset 7; one iteration reads a (id, length) pair of unsigned bytes at the cursor, advances the cursor by
+    length + 2 and the counter by -1 (or the loop is a `for` over range(counter)); the result is the cursor + 2 (CRC)."""
+    buf = fn.params[1]
+    loops = [n for n in ast.walk(fn.node) if isinstance(n, (ast.While, ast.For))]
+    if len(loops) != 1:
+        return False, 'expected exactly one loop, found %d' % len(loops)
+    loop = loops[0]
+    # 1. state on loop entry
+    entry = None
+    for p in cx.enum_region(fn, k, stop=[loop]):
+        if p.exit and p.exit[0] == 'stop':
+            entry = annotate(p, heap=False)
+    if entry is None:
+        return False, 'loop not reachable'
+    init = {name: v for (fid, name), v in entry.loc.items() if fid == 0}
+    # 2. result in terms of the locals after the loop: take the zero-iteration path of the whole function
+    ret0 = None
+    for p in cx.enum(fn, k, max_depth=0):
+        if p.exit and p.exit[0] == 'exc':
+            continue
+        if not any(e.kind == 'loop' and e.a == 'backedge' for e in p.ev) and not any(e.kind == 'assign' and e.frame.fid == 0 and any(e.node is x for x in ast.walk(loop)) for e in p.ev):
+            annotate(p, heap=False)
+            ret0 = ret_expr(p)
+    try:
+        r0 = nz.norm(ret0).const_value() if ret0 is not None else None
+    except Exception:
+        r0 = None
+    if r0 != 10:
+        return False, 'with no objects the size is %s, expected 8 + 2' % (r0 if r0 is not None else (U(ret0) if ret0 is not None else None))
+    # 3. the counter: while counter > 0 (decremented by one per iteration), or for _ in range(counter)
+    cnt_src = None
+    if isinstance(loop, ast.While):
+        t = loop.test
+        if not (isinstance(t, ast.Compare) and len(t.ops) == 1 and isinstance(t.left, ast.Name) and isinstance(t.ops[0], (ast.Gt, ast.NotEq)) and cx.ce.try_ev(t.comparators[0], fn.mod, k) == 0):
+            return False, 'loop test `%s` is not <counter> > 0' % U(t)
+        cvar = t.left.id
+        cnt_src = init.get(cvar)
+    else:
+        it = loop.iter
+        if not (isinstance(it, ast.Call) and callee_name(it) == 'range' and len(it.args) == 1):
+            return False, 'loop `%s` is not a range over the object count' % U(it)
+        from ..sym import substitute
+        cnt_src = substitute(it.args[0], {n_: v for n_, v in init.items() if isinstance(v, ast.AST)})
+        cvar = None
+    ctxt = U(cnt_src).replace(' ', '') if cnt_src is not None else None
+    src = cnt_src
+    if isinstance(src, ast.Call) and callee_name(src) == 'byte2int' and len(src.args) == 1:
+        src = src.args[0]
+    at7 = isinstance(src, ast.Subscript) and isinstance(src.value, ast.Name) and src.value.id == buf and not isinstance(src.slice, ast.Slice) \
+        and cx.ce.try_ev(src.slice, fn.mod, k) == 7
+    if not at7:
+        return False, 'the number of records is taken from `%s`, expected the byte at frame offset 7' % ctxt
+    # 4. one iteration
+    n = 0
+    for p in cx.enum_region(fn, k, loop.body):
+        if p.exit not in (None, 'continue'):
+            continue
+        st = annotate(p, heap=False)
+        n += 1
+        moved = []
+        for (fid, name), v in st.loc.items():
+            if fid != 0 or name == cvar or not isinstance(v, ast.AST):
+                continue
+            try:
+                d = nz.norm(v) - Poly.atom(name)
+            except Exception:
+                continue
+            if d.t and any(name in a for kk in nz.norm(v).t for a in kk):
+                moved.append((name, d))
+        cur = [(nm, d) for nm, d in moved if init.get(nm) is not None and cx.ce.try_ev(init[nm], fn.mod, k) == 8]
+        if len(cur) != 1:
+            return False, 'no cursor that starts at 8 and advances in the loop (%s)' % [(a, str(b)) for a, b in moved]
+        nm, d = cur[0]
+        atoms = [kk for kk in d.t if kk != ()]
+        # the one non-constant term is element 1 of an unsigned two-byte unpack of buffer[cursor : cursor + 2]
+        reads = []
+        for x in ast.walk(st.loc[(0, nm)]):
+            if isinstance(x, ast.Subscript) and isinstance(x.value, ast.Call) and callee_name(x.value) == 'unpack' and len(x.value.args) == 2:
+                reads.append(x)
+        okr = False
+        if len(reads) == 1:
+            x = reads[0]
+            fmt = cx.ce.try_ev(x.value.args[0], fn.mod, k)
+            sl = x.value.args[1]
+            try:
+                lo = nz.norm(sl.slice.lower) if isinstance(sl, ast.Subscript) and isinstance(sl.slice, ast.Slice) and sl.slice.lower is not None else None
+                hi = nz.norm(sl.slice.upper) if lo is not None and sl.slice.upper is not None else None
+                okr = isinstance(fmt, str) and fmt.lstrip('>!') == 'BB' and fmt[:1] in ('>', '!', 'B') and cx.ce.try_ev(x.slice, fn.mod, k) == 1 \
+                    and U(sl.value) == buf and lo == Poly.atom(nm) and hi is not None and (hi - lo).const_value() == 2
+            except Exception:
+                okr = False
+        okd = okr and d.t.get((), 0) == 2 and len(atoms) == 1 and d.t[atoms[0]] == 1 and len(atoms[0]) == 1
+        if not okd:
+            return False, 'one record advances the cursor by %s, expected 2 + the length byte at cursor + 1' % d
+        if cvar is not None:
+            cv = st.loc.get((0, cvar))
+            try:
+                dc = (nz.norm(cv) - Poly.atom(cvar)).const_value() if cv is not None else 0
+            except Exception:
+                dc = None
+            if dc != -1:
+                return False, 'the record counter changes by %s per record, expected -1' % dc
+    if not n:
+        return False, 'no path through the loop body'
+    return True, 'ok'
 
 def r4_transforms(ck, cx, builds):
     ck.rule('R4', 'every transform applied between message.encode() and the wire has its inverse between the wire and decoder.decode')
